@@ -1,6 +1,1018 @@
-//! C17 -- monitor (to be written)
-use crate::fw::ctx;
+//! C17 -- F2 matrix routines of `quizx::linalg::Mat2`.
+//!
+//! Events: every call of gauss_x(full_reduce, blocksize, x) / gauss(full_reduce) / rank /
+//! inverse / nullspace / transpose / vstack / hstack / mul (4 impls) / RowOps / ColOps on
+//! generated matrices. Oracle: `oracle::f2` (bit-vector matrices, textbook elimination,
+//! enumeration of all linear combinations for small sizes); nothing of quizx or bitgauss is
+//! used to judge.
+//!
+//! Clauses checked per gauss call:
+//!   returned rank == true rank; result has the same row space as the input; result is in
+//!   echelon form (full_reduce=false) / reduced echelon form (full_reduce=true); number of
+//!   non-zero rows == returned rank; the row operations reported to the `x` object
+//!   (a) replayed on an oracle copy of the input give the result, (b) transformed the
+//!   unrelated Mat2 handed in as part of `x` by the same matrix g (x -> g*x with
+//!   g*input == result, g invertible).
+//! inverse: Some <=> square and full rank; inv*m == id and m*inv == id (oracle product).
+//! nullspace: count == cols - rank; each vector is 1 x cols and m*v^T == 0; independent.
+//! Algebra: transpose/vstack/hstack/mul against the oracle and among themselves.
+//!
+//! Reading of the property where the text leaves room (so correct code is not blamed):
+//!   * "echelon form" = zero rows last, leading 1s strictly moving right; "reduced" adds
+//!     that a pivot column has no other 1. Row order beyond that is not constrained.
+//!   * block sizes 1..=cols only (blocksize 0 divides by zero and is not in the quantifier).
+//!   * a Mat2 cannot represent a 0 x n matrix with n > 0 (num_cols() reads row 0), so shapes
+//!     with zero rows and non-zero width are not generated; r x 0 and 0 x 0 are only checked
+//!     for no-panic / rank 0 / empty null space.
+
+use crate::fw::{ctx, guarded, par_cases, Caught};
+use crate::gen::prng::Rng;
+use crate::oracle::f2::F2;
+use quizx::linalg::{ColOps, Mat2, RowOps};
+use serde_json::{json, Value};
+use std::collections::BTreeMap;
+
+// ----------------------------------------------------------------------------------------
+// plumbing
+// ----------------------------------------------------------------------------------------
+
+fn to_mat2(f: &F2) -> Mat2 {
+    Mat2::new(f.to_rows())
+}
+
+/// Read a Mat2 back through its public indexing API only.
+fn of_mat2(m: &Mat2, rows: usize, cols: usize) -> Result<F2, String> {
+    if m.num_rows() != rows {
+        return Err(format!("{} rows, expected {rows}", m.num_rows()));
+    }
+    let d: Vec<Vec<u8>> = (0..rows).map(|i| m[i].clone()).collect();
+    F2::from_rows(cols, &d).ok_or_else(|| format!("ragged rows or entries other than 0/1 (expected {rows}x{cols}): {d:?}"))
+}
+
+#[derive(Clone, Copy, Debug, PartialEq, Eq)]
+enum Op {
+    Add(usize, usize),
+    Swap(usize, usize),
+}
+
+/// The `x` object handed to gauss_x: records every reported primitive and forwards it to an
+/// unrelated quizx matrix (the documented use: x -> g * x).
+struct Tee {
+    rows: usize,
+    ops: Vec<Op>,
+    other: Mat2,
+    bad: Option<String>,
+}
+
+impl Tee {
+    fn ok(&mut self, what: &str, r0: usize, r1: usize) -> bool {
+        if r0 >= self.rows || r1 >= self.rows {
+            if self.bad.is_none() {
+                self.bad = Some(format!("{what}({r0},{r1}) out of range for {} rows (op #{})", self.rows, self.ops.len()));
+            }
+            return false;
+        }
+        true
+    }
+}
+
+impl RowOps for Tee {
+    fn row_add(&mut self, r0: usize, r1: usize) {
+        if self.ok("row_add", r0, r1) {
+            self.ops.push(Op::Add(r0, r1));
+            self.other.row_add(r0, r1);
+        }
+    }
+    fn row_swap(&mut self, r0: usize, r1: usize) {
+        if self.ok("row_swap", r0, r1) {
+            self.ops.push(Op::Swap(r0, r1));
+            self.other.row_swap(r0, r1);
+        }
+    }
+}
+
+fn replay(ops: &[Op], m: &mut F2) {
+    for op in ops {
+        match *op {
+            Op::Add(a, b) => m.row_add(a, b),
+            Op::Swap(a, b) => m.row_swap(a, b),
+        }
+    }
+}
+
+fn ops_json(ops: &[Op]) -> Value {
+    Value::Array(
+        ops.iter()
+            .take(400)
+            .map(|o| match o {
+                Op::Add(a, b) => json!(["add", a, b]),
+                Op::Swap(a, b) => json!(["swap", a, b]),
+            })
+            .collect(),
+    )
+}
+
+#[derive(Default)]
+struct Stats(BTreeMap<String, u64>);
+impl Stats {
+    fn add(&mut self, k: &str, n: u64) {
+        if let Some(v) = self.0.get_mut(k) {
+            *v += n;
+        } else {
+            self.0.insert(k.to_string(), n);
+        }
+    }
+    fn flush(self) {
+        let c = ctx();
+        for (k, v) in self.0 {
+            c.count(&k, v);
+        }
+    }
+}
+
+/// Ground truth for one matrix, computed once.
+struct Truth {
+    rank: usize,
+    rref: F2,
+    /// brute-force row space when small enough (definitional check)
+    space: Option<Vec<u64>>,
+}
+
+fn truth_of(m: &F2) -> Result<Truth, String> {
+    let (rref, piv) = m.rref();
+    let space = if m.rows <= 8 { Some(m.row_space_brute()) } else { None };
+    if let Some(s) = &space {
+        let rb = s.len().trailing_zeros() as usize;
+        if rb != piv.len() {
+            return Err(format!("oracle disagreement: elimination rank {} vs enumeration rank {rb}", piv.len()));
+        }
+    }
+    Ok(Truth { rank: piv.len(), rref, space })
+}
+
+struct CaseId<'a> {
+    family: &'static str,
+    index: u64,
+    class: &'a str,
+}
+
+// ----------------------------------------------------------------------------------------
+// one elimination call
+// ----------------------------------------------------------------------------------------
+
+/// `bs = Some(b)`: gauss_x(full, b, tee); `None`: the public wrapper gauss(full).
+/// Returns the number of reported row operations.
+fn check_gauss_call(id: &CaseId, m: &F2, t: &Truth, bs: Option<usize>, full: bool, x0: &F2, st: &mut Stats) -> usize {
+    let c = ctx();
+    let site = if bs.is_some() { "gauss_x" } else { "gauss" };
+    let mut q = to_mat2(m);
+    let mut tee = Tee { rows: m.rows, ops: vec![], other: to_mat2(x0), bad: None };
+    let r = guarded(|| match bs {
+        Some(b) => q.gauss_x(full, b, &mut tee),
+        None => q.gauss(full),
+    });
+    let base = |what: &str, extra: Value| {
+        json!({
+            "what": what, "call": site, "class": id.class,
+            "matrix": m.to_json(), "blocksize": bs, "full_reduce": full,
+            "proxy_x": x0.to_json(), "true_rank": t.rank, "extra": extra,
+        })
+    };
+    let ret = match r {
+        Ok(v) => v,
+        Err(Caught::Oracle(msg)) => {
+            c.inconclusive("oracle-error", json!({"msg": msg}));
+            return 0;
+        }
+        Err(e) => {
+            c.violation(&format!("{site}|panic|{}", e.site()), id.family, id.index, base("panic", json!(e.text())));
+            return 0;
+        }
+    };
+    let res = match of_mat2(&q, m.rows, m.cols) {
+        Ok(f) => f,
+        Err(why) => {
+            c.violation(&format!("{site}|result-malformed"), id.family, id.index, base("result is not a rows x cols 0/1 matrix", json!(why)));
+            return 0;
+        }
+    };
+    if ret != t.rank {
+        c.violation(
+            &format!("{site}|rank-mismatch|full_reduce={full}"),
+            id.family,
+            id.index,
+            base("returned rank differs from the true rank", json!({"returned": ret, "result": res.to_json()})),
+        );
+    }
+    let mut same_space = res.same_row_space(m);
+    if let Some(sp) = &t.space {
+        let brute_same = res.row_space_brute() == *sp;
+        if brute_same != same_space {
+            c.harness_error(&format!("f2 oracle: row-space comparison by rref and by enumeration disagree on {}", m.to_json()));
+            same_space = brute_same;
+        }
+    }
+    if !same_space {
+        c.violation(
+            &format!("{site}|row-space-changed|full_reduce={full}"),
+            id.family,
+            id.index,
+            base("result is not row-equivalent to the input", json!({"result": res.to_json(), "rref_of_input": t.rref.to_json()})),
+        );
+    }
+    let form = if full { res.check_rref() } else { res.check_echelon() };
+    let form_ok = form.is_ok();
+    if let Err(why) = form {
+        let sig = if full { format!("{site}|not-reduced-echelon|full_reduce=true") } else { format!("{site}|not-echelon|full_reduce=false") };
+        c.violation(&sig, id.family, id.index, base("result is not in the required echelon form", json!({"why": why, "result": res.to_json()})));
+    }
+    if res.nonzero_rows() != ret {
+        c.violation(
+            &format!("{site}|nonzero-rows-differ-from-returned-rank|full_reduce={full}"),
+            id.family,
+            id.index,
+            base("number of non-zero rows of the result != returned value", json!({"returned": ret, "nonzero_rows": res.nonzero_rows(), "result": res.to_json()})),
+        );
+    }
+    if full && same_space && form_ok && res != t.rref {
+        // the reduced echelon form of a row space is unique
+        c.harness_error(&format!("f2 oracle: a reduced echelon form with the right row space differs from the oracle's rref on {}", m.to_json()));
+    }
+    if bs.is_none() {
+        return 0;
+    }
+    // ---- the reported row operations ----
+    st.add("rowops_reported", tee.ops.len() as u64);
+    if tee.ops.is_empty() {
+        st.add("gauss_x_calls_with_no_rowops", 1);
+    }
+    if let Some(why) = &tee.bad {
+        c.violation(&format!("{site}|rowops-index-out-of-range"), id.family, id.index, base("reported a row operation with an out-of-range index", json!(why)));
+        return tee.ops.len();
+    }
+    if let Some(k) = tee.ops.iter().position(|o| matches!(o, Op::Add(a, b) if a == b)) {
+        c.violation(
+            &format!("{site}|rowops-adds-row-to-itself"),
+            id.family,
+            id.index,
+            base("reported row_add(r, r), which is not an invertible operation", json!({"op_number": k, "ops": ops_json(&tee.ops)})),
+        );
+    }
+    // (a) replay on a copy of the original
+    let mut copy = m.clone();
+    replay(&tee.ops, &mut copy);
+    let replay_ok = copy == res;
+    if !replay_ok {
+        c.violation(
+            &format!("{site}|rowops-replay-on-original-differs|full_reduce={full}"),
+            id.family,
+            id.index,
+            base(
+                "replaying the reported row operations on the input does not give the result",
+                json!({"result": res.to_json(), "replayed": copy.to_json(), "ops": ops_json(&tee.ops)}),
+            ),
+        );
+    }
+    // (b) the unrelated object: x -> g * x with g the product of the reported primitives
+    let mut g = F2::identity(m.rows);
+    replay(&tee.ops, &mut g);
+    if g.rank() != m.rows {
+        c.violation(
+            &format!("{site}|rowops-not-invertible"),
+            id.family,
+            id.index,
+            base("the reported operations compose to a singular transformation", json!({"g": g.to_json(), "ops": ops_json(&tee.ops)})),
+        );
+    }
+    if replay_ok && g.mul(m) != res {
+        c.harness_error(&format!("f2 oracle: replay and g*m disagree on {}", m.to_json()));
+    }
+    match of_mat2(&tee.other, x0.rows, x0.cols) {
+        Ok(xr) => {
+            let expect = g.mul(x0);
+            if xr != expect {
+                c.violation(
+                    &format!("{site}|rowops-proxy-object-differs|full_reduce={full}"),
+                    id.family,
+                    id.index,
+                    base(
+                        "the second object was not transformed by the same g as the matrix",
+                        json!({"x_after": xr.to_json(), "g_times_x": expect.to_json(), "g": g.to_json()}),
+                    ),
+                );
+            }
+            // the documented consequence: g * m == m' for the g that acted on x
+            if x0.rows == x0.cols && x0 == &F2::identity(x0.rows) && xr.mul(m) != res {
+                c.violation(
+                    &format!("{site}|rowops-x-times-input-differs-from-result|full_reduce={full}"),
+                    id.family,
+                    id.index,
+                    base("with x = id, the transformed x times the input is not the result (doc: g*m = m', x -> g*x)", json!({"x_after": xr.to_json(), "result": res.to_json()})),
+                );
+            }
+        }
+        Err(why) => {
+            c.violation(&format!("{site}|rowops-proxy-object-malformed"), id.family, id.index, base("proxy matrix malformed after the call", json!(why)));
+        }
+    }
+    tee.ops.len()
+}
+
+// ----------------------------------------------------------------------------------------
+// all routines on one matrix
+// ----------------------------------------------------------------------------------------
+
+fn check_matrix(id: &CaseId, m: &F2, x0: &F2, shape_key: Option<&str>, st: &mut Stats) {
+    let c = ctx();
+    let t = match truth_of(m) {
+        Ok(t) => t,
+        Err(e) => {
+            c.harness_error(&e);
+            return;
+        }
+    };
+    let mut ops_by_bs: Vec<usize> = vec![];
+    for bs in 1..=m.cols {
+        for full in [false, true] {
+            let n = check_gauss_call(id, m, &t, Some(bs), full, x0, st);
+            if full {
+                ops_by_bs.push(n);
+            }
+            match shape_key {
+                Some(k) => st.add(&format!("exh:{k}:gauss_x:bs={bs}:full={full}"), 1),
+                None => st.add(&format!("rand:gauss_x:bs={bs:02}:full={full}"), 1),
+            }
+        }
+    }
+    if ops_by_bs.iter().any(|&n| n != ops_by_bs[0]) {
+        st.add("matrices_where_blocksize_changes_the_op_count", 1);
+    }
+    for full in [false, true] {
+        check_gauss_call(id, m, &t, None, full, x0, st);
+        st.add(&format!("gauss(bs=3):full={full}"), 1);
+    }
+    let det = |what: &str, extra: Value| json!({"what": what, "class": id.class, "matrix": m.to_json(), "true_rank": t.rank, "extra": extra});
+    let q = to_mat2(m);
+    // rank()
+    match guarded(|| q.rank()) {
+        Ok(r) => {
+            st.add("rank_calls", 1);
+            if r != t.rank {
+                c.violation("rank|mismatch", id.family, id.index, det("rank() differs from the true rank", json!({"returned": r})));
+            }
+        }
+        Err(Caught::Oracle(msg)) => c.inconclusive("oracle-error", json!({"msg": msg})),
+        Err(e) => c.violation(&format!("rank|panic|{}", e.site()), id.family, id.index, det("panic", json!(e.text()))),
+    }
+    // inverse()
+    let square = m.rows == m.cols;
+    let invertible = square && t.rank == m.rows;
+    match guarded(|| q.inverse()) {
+        Ok(None) => {
+            st.add(if square { "inverse:None:square-singular" } else { "inverse:None:non-square" }, 1);
+            if invertible {
+                c.violation("inverse|none-for-invertible", id.family, id.index, det("inverse() is None for an invertible matrix", json!(null)));
+            }
+        }
+        Ok(Some(inv)) => {
+            st.add("inverse:Some", 1);
+            if !invertible {
+                let sig = if square { "inverse|some-for-singular" } else { "inverse|some-for-non-square" };
+                c.violation(sig, id.family, id.index, det("inverse() is Some for a non-invertible matrix", json!(format!("{inv:?}"))));
+            } else {
+                match of_mat2(&inv, m.rows, m.rows) {
+                    Err(why) => c.violation("inverse|wrong-shape", id.family, id.index, det("inverse has the wrong shape", json!(why))),
+                    Ok(fi) => {
+                        let idm = F2::identity(m.rows);
+                        if fi.mul(m) != idm {
+                            c.violation("inverse|not-left-inverse", id.family, id.index, det("inv * m != id", json!({"inv": fi.to_json(), "product": fi.mul(m).to_json()})));
+                        }
+                        if m.mul(&fi) != idm {
+                            c.violation("inverse|not-right-inverse", id.family, id.index, det("m * inv != id", json!({"inv": fi.to_json(), "product": m.mul(&fi).to_json()})));
+                        }
+                    }
+                }
+            }
+        }
+        Err(Caught::Oracle(msg)) => c.inconclusive("oracle-error", json!({"msg": msg})),
+        Err(e) => c.violation(&format!("inverse|panic|{}", e.site()), id.family, id.index, det("panic", json!(e.text()))),
+    }
+    // nullspace()
+    match guarded(|| q.nullspace()) {
+        Ok(vs) => {
+            st.add("nullspace_calls", 1);
+            st.add(&format!("nullspace:dim={:02}", m.cols - t.rank), 1);
+            let shown: Vec<String> = vs.iter().map(|v| format!("{v:?}")).collect();
+            if vs.len() != m.cols - t.rank {
+                c.violation(
+                    "nullspace|count-differs-from-cols-minus-rank",
+                    id.family,
+                    id.index,
+                    det("number of null-space vectors != cols - rank", json!({"returned": vs.len(), "expected": m.cols - t.rank, "vectors": shown})),
+                );
+            }
+            let mut masks = vec![];
+            let mut shapes_ok = true;
+            for (k, v) in vs.iter().enumerate() {
+                match of_mat2(v, 1, m.cols) {
+                    Ok(f) => masks.push(f.r[0]),
+                    Err(why) => {
+                        shapes_ok = false;
+                        c.violation("nullspace|vector-shape", id.family, id.index, det("null-space vector is not a 1 x cols 0/1 matrix", json!({"k": k, "why": why})));
+                    }
+                }
+            }
+            for (k, &x) in masks.iter().enumerate() {
+                if m.apply(x) != 0 {
+                    c.violation(
+                        "nullspace|vector-not-annihilated",
+                        id.family,
+                        id.index,
+                        det("m * v^T != 0", json!({"k": k, "vector": shown[k], "m_times_v_bits": m.apply(x), "vectors": shown})),
+                    );
+                    break;
+                }
+            }
+            if shapes_ok && !F2::independent(m.cols, &masks) {
+                c.violation("nullspace|vectors-dependent", id.family, id.index, det("returned vectors are linearly dependent", json!({"vectors": shown})));
+            }
+            if shapes_ok && m.cols <= 10 && vs.len() == m.cols - t.rank {
+                // definitional cross-check: span of the vectors == { x | m x = 0 }
+                let span = F2 { rows: masks.len(), cols: m.cols, r: masks.clone() }.row_space_brute();
+                let ns = m.null_space_brute();
+                let all_in = masks.iter().all(|&x| m.apply(x) == 0);
+                let indep = F2::independent(m.cols, &masks);
+                if all_in && indep && span != ns {
+                    c.harness_error(&format!("f2 oracle: independent annihilated vectors of the right count do not span the brute-force null space of {}", m.to_json()));
+                }
+            }
+        }
+        Err(Caught::Oracle(msg)) => c.inconclusive("oracle-error", json!({"msg": msg})),
+        Err(e) => c.violation(&format!("nullspace|panic|{}", e.site()), id.family, id.index, det("panic", json!(e.text()))),
+    }
+    st.add(if t.rank < m.rows.min(m.cols) { "matrices:rank-deficient" } else { "matrices:full-rank" }, 1);
+    let nontrivial = t.rank >= 1 && m.rows >= 2;
+    c.case(id.family, if nontrivial { Some(m.hash()) } else { None });
+}
+
+// ----------------------------------------------------------------------------------------
+// generators
+// ----------------------------------------------------------------------------------------
+
+fn rand_uniform(r: &mut Rng, rows: usize, cols: usize, p: f64) -> F2 {
+    let mut m = F2::zeros(rows, cols);
+    for i in 0..rows {
+        for j in 0..cols {
+            if r.chance(p) {
+                m.set(i, j, true);
+            }
+        }
+    }
+    m
+}
+
+fn scramble_rows(r: &mut Rng, m: &mut F2, n_ops: usize) {
+    if m.rows < 2 {
+        return;
+    }
+    for _ in 0..n_ops {
+        let a = r.below(m.rows);
+        let mut b = r.below(m.rows - 1);
+        if b >= a {
+            b += 1;
+        }
+        if r.chance(0.8) {
+            m.row_add(a, b);
+        } else {
+            m.row_swap(a, b);
+        }
+    }
+}
+
+pub const CLASSES: [&str; 9] = [
+    "uniform",
+    "rank-deficient",
+    "duplicate-rows",
+    "zero-columns",
+    "block-boundary-pivots",
+    "chunk-pool",
+    "invertible",
+    "permuted-triangular",
+    "corank-one",
+];
+
+fn gen_matrix(r: &mut Rng, max_dim: usize) -> (F2, &'static str) {
+    let dim = |r: &mut Rng| -> usize {
+        if r.chance(0.35) {
+            1 + r.below(6.min(max_dim))
+        } else {
+            1 + r.below(max_dim)
+        }
+    };
+    let mut rows = dim(r);
+    let mut cols = dim(r);
+    if r.chance(0.25) {
+        cols = rows;
+    }
+    let class = CLASSES[r.below(CLASSES.len())];
+    let dens = *r.pick(&[0.05, 0.2, 0.5, 0.5, 0.8, 0.95]);
+    let m = match class {
+        "uniform" => rand_uniform(r, rows, cols, dens),
+        "rank-deficient" => {
+            let k = r.below(rows.min(cols).max(1));
+            let basis = rand_uniform(r, k, cols, 0.5);
+            let mut m = F2::zeros(rows, cols);
+            for i in 0..rows {
+                for b in 0..k {
+                    if r.chance(0.5) {
+                        m.r[i] ^= basis.r[b];
+                    }
+                }
+            }
+            m
+        }
+        "duplicate-rows" => {
+            let mut m = rand_uniform(r, rows, cols, dens);
+            for i in 1..rows {
+                if r.chance(0.5) {
+                    m.r[i] = m.r[r.below(i)];
+                }
+            }
+            let mut order: Vec<usize> = (0..rows).collect();
+            r.shuffle(&mut order);
+            F2 { rows, cols, r: order.iter().map(|&i| m.r[i]).collect() }
+        }
+        "zero-columns" => {
+            let mut m = rand_uniform(r, rows, cols, dens.max(0.3));
+            let force = r.below(cols);
+            for j in 0..cols {
+                if j == force || r.chance(0.3) {
+                    for i in 0..rows {
+                        m.set(i, j, false);
+                    }
+                }
+            }
+            // leading zero columns shift every pivot away from the block starts
+            if r.chance(0.3) {
+                let lead = r.below(cols);
+                for j in 0..lead {
+                    for i in 0..rows {
+                        m.set(i, j, false);
+                    }
+                }
+            }
+            if rows > 1 && r.chance(0.3) {
+                let z = r.below(rows);
+                m.r[z] = 0;
+            }
+            m
+        }
+        "block-boundary-pivots" => {
+            // echelon matrix whose pivots sit on the first / last column of blocks of width b,
+            // then hidden by random invertible row operations
+            let b = 1 + r.below(cols);
+            let mut pivs = vec![];
+            for j in 0..cols {
+                let on_boundary = j % b == 0 || j % b == b - 1 || j + 1 == cols;
+                if pivs.len() < rows && r.chance(if on_boundary { 0.7 } else { 0.08 }) {
+                    pivs.push(j);
+                }
+            }
+            let mut m = F2::zeros(rows, cols);
+            for (k, &p) in pivs.iter().enumerate() {
+                m.set(k, p, true);
+                for j in p + 1..cols {
+                    if !pivs.contains(&j) && r.chance(0.5) {
+                        m.set(k, j, true);
+                    }
+                }
+            }
+            scramble_rows(r, &mut m, 3 * rows + 2);
+            m
+        }
+        "chunk-pool" => {
+            // every row is assembled from a small pool of sub-rows per block of width b, so the
+            // chunk de-duplication of the Patel-Markov-Hayes pass fires in (almost) every block
+            let b = 1 + r.below(cols);
+            let nblocks = (cols + b - 1) / b;
+            let mut m = F2::zeros(rows, cols);
+            for blk in 0..nblocks {
+                let lo = blk * b;
+                let hi = (lo + b).min(cols);
+                let w = hi - lo;
+                let pool_n = 1 + r.below(3);
+                let pool: Vec<u64> = (0..pool_n).map(|k| if k == 0 && r.chance(0.3) { 0 } else { r.next_u64() & ((1u64 << w) - 1) }).collect();
+                for i in 0..rows {
+                    let ch = *r.pick(&pool);
+                    m.r[i] |= ch << lo;
+                }
+            }
+            m
+        }
+        "invertible" => {
+            cols = rows;
+            let mut m = F2::identity(rows);
+            scramble_rows(r, &mut m, 4 * rows + 1);
+            m
+        }
+        "permuted-triangular" => {
+            cols = rows;
+            let mut perm: Vec<usize> = (0..rows).collect();
+            r.shuffle(&mut perm);
+            let upper = r.chance(0.5);
+            let unit_diag = r.chance(0.7);
+            let mut tri = F2::zeros(rows, rows);
+            for i in 0..rows {
+                for j in 0..rows {
+                    let inside = if upper { j > i } else { j < i };
+                    if (i == j && (unit_diag || r.chance(0.7))) || (inside && r.chance(0.5)) {
+                        tri.set(i, j, true);
+                    }
+                }
+            }
+            F2 { rows, cols: rows, r: perm.iter().map(|&i| tri.r[i]).collect() }
+        }
+        _ => {
+            // "corank-one": invertible, then one row replaced by a combination of the others
+            rows = rows.max(2);
+            cols = rows;
+            let mut m = F2::identity(rows);
+            scramble_rows(r, &mut m, 4 * rows + 1);
+            let z = r.below(rows);
+            let mut v = 0u64;
+            for i in 0..rows {
+                if i != z && r.chance(0.5) {
+                    v ^= m.r[i];
+                }
+            }
+            m.r[z] = v;
+            m
+        }
+    };
+    debug_assert!(m.rows == rows && m.cols == cols);
+    (m, class)
+}
+
+// ----------------------------------------------------------------------------------------
+// algebraic laws
+// ----------------------------------------------------------------------------------------
+
+fn same(q: &Mat2, f: &F2) -> Result<(), String> {
+    if f.rows == 0 {
+        return if q.num_rows() == 0 { Ok(()) } else { Err(format!("expected 0 rows, got {}", q.num_rows())) };
+    }
+    match of_mat2(q, f.rows, f.cols) {
+        Ok(x) if x == *f => Ok(()),
+        Ok(x) => Err(format!("observed {} expected {}", x.to_json(), f.to_json())),
+        Err(e) => Err(e),
+    }
+}
+
+/// All laws on one tuple: a (r x k), b, b2 (k x c), cc (c x d), d (r x k), e (r x k2), f (r2 x k).
+#[allow(clippy::too_many_arguments)]
+fn check_algebra(family: &'static str, index: u64, a: &F2, b: &F2, b2: &F2, cc: &F2, d: &F2, e: &F2, f: &F2, st: &mut Stats) {
+    let c = ctx();
+    let inputs = json!({"a": a.to_json(), "b": b.to_json(), "b2": b2.to_json(), "c": cc.to_json(), "d": d.to_json(), "e": e.to_json(), "f": f.to_json()});
+    let (qa, qb, qb2, qc, qd, qe, qf) = (to_mat2(a), to_mat2(b), to_mat2(b2), to_mat2(cc), to_mat2(d), to_mat2(e), to_mat2(f));
+    let mut law = |sig: &str, what: &str, got: Result<Result<(), String>, Caught>| {
+        st.add(&format!("law:{sig}"), 1);
+        match got {
+            Ok(Ok(())) => {}
+            Ok(Err(why)) => c.violation(sig, family, index, json!({"what": what, "why": why, "inputs": inputs})),
+            Err(Caught::Oracle(m)) => c.inconclusive("oracle-error", json!({"msg": m})),
+            Err(p) => c.violation(&format!("{sig}|panic|{}", p.site()), family, index, json!({"what": what, "panic": p.text(), "inputs": inputs})),
+        }
+    };
+    // transpose
+    law("transpose|differs-from-oracle", "a^T", guarded(|| same(&qa.transpose(), &a.transpose())));
+    law("transpose|not-involutive", "(a^T)^T == a", guarded(|| same(&qa.transpose().transpose(), a)));
+    // stacking
+    law("vstack|differs-from-oracle", "vstack(a, f)", guarded(|| same(&qa.vstack(&qf), &a.vstack(f))));
+    law("hstack|differs-from-oracle", "hstack(a, e)", guarded(|| same(&qa.hstack(&qe), &a.hstack(e))));
+    law("vstack|transpose-law", "vstack(a,f)^T == hstack(a^T, f^T)", guarded(|| {
+        let l = qa.vstack(&qf).transpose();
+        let r = qa.transpose().hstack(&qf.transpose());
+        if l == r { Ok(()) } else { Err(format!("{l:?} vs {r:?}")) }
+    }));
+    law("hstack|transpose-law", "hstack(a,e)^T == vstack(a^T, e^T)", guarded(|| {
+        let l = qa.hstack(&qe).transpose();
+        let r = qa.transpose().vstack(&qe.transpose());
+        if l == r { Ok(()) } else { Err(format!("{l:?} vs {r:?}")) }
+    }));
+    law("vstack|associativity", "vstack(vstack(a,d),f) == vstack(a,vstack(d,f))", guarded(|| {
+        let l = qa.vstack(&qd).vstack(&qf);
+        let r = qa.vstack(&qd.vstack(&qf));
+        if l == r { Ok(()) } else { Err(format!("{l:?} vs {r:?}")) }
+    }));
+    // multiplication: four impls against the oracle
+    let ab = a.mul(b);
+    law("mul|ref-ref-differs-from-oracle", "&a * &b", guarded(|| same(&(&qa * &qb), &ab)));
+    law("mul|ref-owned-differs-from-oracle", "&a * b", guarded(|| same(&(&qa * qb.clone()), &ab)));
+    law("mul|owned-ref-differs-from-oracle", "a * &b", guarded(|| same(&(qa.clone() * &qb), &ab)));
+    law("mul|owned-owned-differs-from-oracle", "a * b", guarded(|| same(&(qa.clone() * qb.clone()), &ab)));
+    law("mul|associativity", "(a*b)*c == a*(b*c)", guarded(|| {
+        let l = &(&qa * &qb) * &qc;
+        let r = &qa * &(&qb * &qc);
+        if l == r { Ok(()) } else { Err(format!("{l:?} vs {r:?}")) }
+    }));
+    law("mul|transpose-law", "(a*b)^T == b^T * a^T", guarded(|| {
+        let l = (&qa * &qb).transpose();
+        let r = &qb.transpose() * &qa.transpose();
+        if l == r { Ok(()) } else { Err(format!("{l:?} vs {r:?}")) }
+    }));
+    law("mul|identity-law", "a * id == a == id * a", guarded(|| {
+        let l = &qa * &Mat2::id(a.cols);
+        let r = &Mat2::id(a.rows) * &qa;
+        if l == qa && r == qa { Ok(()) } else { Err(format!("{l:?} / {r:?} vs {qa:?}")) }
+    }));
+    law("mul|distributes-over-vstack", "vstack(a,d)*b == vstack(a*b, d*b)", guarded(|| {
+        let l = &qa.vstack(&qd) * &qb;
+        let r = (&qa * &qb).vstack(&(&qd * &qb));
+        if l == r { Ok(()) } else { Err(format!("{l:?} vs {r:?}")) }
+    }));
+    law("mul|distributes-over-hstack", "a*hstack(b,b2) == hstack(a*b, a*b2)", guarded(|| {
+        let l = &qa * &qb.hstack(&qb2);
+        let r = (&qa * &qb).hstack(&(&qa * &qb2));
+        if l == r { Ok(()) } else { Err(format!("{l:?} vs {r:?}")) }
+    }));
+    law("mul|block-product-law", "hstack(a,d) * vstack(b,b) == (a+d)*b", guarded(|| {
+        // hstack(a,d) * vstack(b,b) = a*b + d*b = (a+d)*b ; the sum is taken in the oracle
+        let l = &qa.hstack(&qd) * &qb.vstack(&qb);
+        let sum = F2 { rows: a.rows, cols: a.cols, r: a.r.iter().zip(d.r.iter()).map(|(x, y)| x ^ y).collect() };
+        same(&l, &sum.mul(b))
+    }));
+    law("rank|product-rank-bound", "rank(a*b) <= min(rank a, rank b); rank(a^T) == rank(a)", guarded(|| {
+        let rab = (&qa * &qb).rank();
+        let (ra, rb, rat) = (qa.rank(), qb.rank(), qa.transpose().rank());
+        if rab <= ra.min(rb) && rat == ra && ra == a.rank() && rb == b.rank() && rab == ab.rank() {
+            Ok(())
+        } else {
+            Err(format!("rank(ab)={rab} rank(a)={ra} rank(b)={rb} rank(a^T)={rat}; oracle {} {} {}", ab.rank(), a.rank(), b.rank()))
+        }
+    }));
+    // constructors
+    law("constructors|differ-from-oracle", "zeros/ones/id/unit_vector/build", guarded(|| {
+        same(&Mat2::zeros(a.rows, a.cols), &F2::zeros(a.rows, a.cols))?;
+        same(&Mat2::ones(a.rows, a.cols), &F2::from_fn(a.rows, a.cols, |_, _| true))?;
+        same(&Mat2::id(a.rows), &F2::identity(a.rows))?;
+        for i in 0..a.rows {
+            same(&Mat2::unit_vector(a.rows, i), &F2::from_fn(a.rows, 1, |x, _| x == i))?;
+        }
+        same(&Mat2::build(a.rows, a.cols, |i, j| a.get(i, j)), a)?;
+        if qa.num_rows() != a.rows || qa.num_cols() != a.cols {
+            return Err(format!("num_rows/num_cols = {}x{}", qa.num_rows(), qa.num_cols()));
+        }
+        Ok(())
+    }));
+    // inverse laws when a happens to be invertible
+    if a.rows == a.cols && a.rank() == a.rows {
+        law("inverse|not-involutive", "inverse(inverse(a)) == a", guarded(|| {
+            let i1 = qa.inverse().ok_or("inverse(a) is None")?;
+            let i2 = i1.inverse().ok_or("inverse(inverse(a)) is None")?;
+            if i2 == qa { Ok(()) } else { Err(format!("{i2:?} vs {qa:?}")) }
+        }));
+        if d.rank() == d.rows && d.rows == d.cols {
+            law("inverse|product-law", "inverse(a*d) == inverse(d) * inverse(a)", guarded(|| {
+                let l = (&qa * &qd).inverse().ok_or("inverse(a*d) is None")?;
+                let r = &qd.inverse().ok_or("inverse(d) is None")? * &qa.inverse().ok_or("inverse(a) is None")?;
+                if l == r { Ok(()) } else { Err(format!("{l:?} vs {r:?}")) }
+            }));
+        }
+    }
+    c.case(family, if !a.is_zero() && !b.is_zero() { Some(a.hash() ^ b.hash().rotate_left(21) ^ cc.hash().rotate_left(43)) } else { None });
+}
+
+/// RowOps / ColOps primitives of Mat2 against the oracle, a random sequence.
+fn check_primitives(family: &'static str, index: u64, r: &mut Rng, a: &F2, st: &mut Stats) {
+    let c = ctx();
+    let mut q = to_mat2(a);
+    let mut f = a.clone();
+    let mut log = vec![];
+    for _ in 0..12 {
+        let kind = r.below(4);
+        let (n, name) = match kind {
+            0 => (a.rows, "row_add"),
+            1 => (a.rows, "row_swap"),
+            2 => (a.cols, "col_add"),
+            _ => (a.cols, "col_swap"),
+        };
+        let (i, j) = (r.below(n), r.below(n));
+        log.push(json!([name, i, j]));
+        st.add(&format!("primitive:{name}"), 1);
+        let res = guarded(|| match kind {
+            0 => q.row_add(i, j),
+            1 => q.row_swap(i, j),
+            2 => q.col_add(i, j),
+            _ => q.col_swap(i, j),
+        });
+        match kind {
+            0 => f.row_add(i, j),
+            1 => f.row_swap(i, j),
+            2 => f.col_add(i, j),
+            _ => f.col_swap(i, j),
+        }
+        let bad = match res {
+            Err(Caught::Oracle(m)) => {
+                c.inconclusive("oracle-error", json!({"msg": m}));
+                return;
+            }
+            Err(p) => Some((format!("{name}|panic|{}", p.site()), p.text())),
+            Ok(()) => same(&q, &f).err().map(|why| (format!("{name}|differs-from-oracle"), why)),
+        };
+        if let Some((sig, why)) = bad {
+            c.violation(&sig, family, index, json!({"what": "RowOps/ColOps primitive", "start": a.to_json(), "ops": log, "why": why}));
+            return;
+        }
+    }
+}
+
+// ----------------------------------------------------------------------------------------
+// run
+// ----------------------------------------------------------------------------------------
+
+const CHUNK: u64 = 256;
 
 pub fn run() {
-    ctx().harness_error("C17 monitor not implemented yet");
+    let c = ctx();
+    if let Err(e) = crate::oracle::f2::self_test() {
+        c.harness_error(&format!("f2 oracle self-test failed: {e}"));
+        return;
+    }
+    let t = c.tier;
+    c.set_rule(
+        "cases = matrices (families exh-<r>x<c>: every 0/1 matrix of that shape; random: 9 biased classes up to 24x24; degenerate: 0x0 and r x 0) each run through gauss_x for EVERY block size 1..=cols x both modes, gauss x both modes, rank, inverse, nullspace; plus algebra tuples (exhaustive small pairs and random). A matrix case is non-trivial when rank >= 1 and rows >= 2; an algebra tuple when a and b are non-zero; distinct = distinct 64-bit hashes of the matrix (tuple) contents",
+    );
+    c.assume("oracle O5/f2 (harness/src/oracle/f2.rs) is correct: self-tested at start (elimination vs enumeration of all row combinations for every matrix up to 3x4/4x3 and 300 random up to 9x9); rank and row space are additionally recomputed by enumeration for every monitored matrix with <= 8 rows");
+    c.assume("echelon form = zero rows last and leading 1s strictly moving right; reduced = additionally no other 1 in a pivot column");
+    c.assume("block sizes are 1..=cols as quantified; blocksize 0 is not a valid call");
+    c.assume("0 x n matrices with n > 0 cannot be represented by Mat2 and are not generated; transpose involution is therefore only required for shapes with rows, cols >= 1");
+
+    // ---- exhaustive shapes ----
+    let shapes: Vec<(usize, usize)> = {
+        let mut v = vec![];
+        let (maxd, maxbits) = t.pick((4usize, 12usize), (5usize, 20usize));
+        for r in 1..=maxd {
+            for cc in 1..=maxd {
+                if r * cc <= maxbits {
+                    v.push((r, cc));
+                }
+            }
+        }
+        // wide/tall strips exercise many blocks with few rows and vice versa
+        for s in t.pick(vec![(1usize, 8usize), (8, 1), (2, 6), (6, 2)], vec![(1, 12), (12, 1), (2, 8), (8, 2), (2, 10), (3, 6), (6, 3)]) {
+            v.push(s);
+        }
+        v
+    };
+    let mut exh = vec![];
+    let mut all_done = true;
+    for &(rows, cols) in &shapes {
+        let space = 1u64 << (rows * cols);
+        let nchunks = ((space + CHUNK - 1) / CHUNK) as usize;
+        let fam: &'static str = Box::leak(format!("exh-{rows}x{cols}").into_boxed_str());
+        let key: &'static str = Box::leak(format!("{rows}x{cols}").into_boxed_str());
+        par_cases(fam, nchunks, move |_r, ci| {
+            let mut st = Stats::default();
+            let x0 = F2::identity(rows);
+            let mut n = 0;
+            for bits in ci * CHUNK..((ci + 1) * CHUNK).min(space) {
+                let m = F2::from_bits(rows, cols, bits);
+                check_matrix(&CaseId { family: fam, index: ci, class: "exhaustive" }, &m, &x0, Some(key), &mut st);
+                n += 1;
+            }
+            st.add(&format!("exh:{key}:matrices"), n);
+            st.flush();
+        });
+        let seen = c.get_count(&format!("exh:{key}:matrices"));
+        let done = seen == space;
+        all_done &= done;
+        exh.push(json!({"rows": rows, "cols": cols, "space": space, "matrices_checked": seen, "completed": done,
+            "gauss_x_calls": seen * (cols as u64) * 2, "block_sizes": format!("1..={cols}"), "modes": 2}));
+    }
+    c.extra("exhaustive_shapes", Value::Array(exh));
+    c.extra("exhaustive", json!({"what": "all 0/1 matrices of the listed shapes x all block sizes 1..=cols x both modes", "completed": all_done && c.replay.is_none()}));
+
+    // ---- degenerate shapes ----
+    par_cases("degenerate", 5, move |_r, i| {
+        let c = ctx();
+        let rows = i as usize; // 0x0, 1x0, 2x0, 3x0, 4x0
+        let q = Mat2::new(vec![vec![]; rows]);
+        let det = json!({"matrix": format!("{rows} x 0")});
+        let res = guarded(|| {
+            let mut g0 = q.clone();
+            let mut g1 = q.clone();
+            (g0.gauss(false), g1.gauss(true), q.rank(), q.inverse(), q.nullspace().len(), q.transpose().num_rows())
+        });
+        match res {
+            Err(Caught::Oracle(m)) => c.inconclusive("oracle-error", json!({"msg": m})),
+            Err(p) => c.violation(&format!("degenerate-shape|panic|{}", p.site()), "degenerate", i, json!({"what": "panic on an empty matrix", "input": det, "panic": p.text()})),
+            Ok((r0, r1, rk, inv, ns, _)) => {
+                if r0 != 0 || r1 != 0 || rk != 0 {
+                    c.violation("degenerate-shape|rank-nonzero", "degenerate", i, json!({"input": det, "observed": [r0, r1, rk], "expected": 0}));
+                }
+                if ns != 0 {
+                    c.violation("degenerate-shape|nullspace-nonempty", "degenerate", i, json!({"input": det, "observed": ns, "expected": 0}));
+                }
+                if inv.is_some() != (rows == 0) {
+                    c.violation("degenerate-shape|inverse", "degenerate", i, json!({"input": det, "observed_some": inv.is_some(), "expected_some": rows == 0}));
+                }
+            }
+        }
+        c.case("degenerate", None);
+    });
+
+    // ---- random matrices ----
+    let n_rand = t.pick(20_000usize, 1_500_000usize);
+    par_cases("random", n_rand, move |r, i| {
+        let mut st = Stats::default();
+        let (m, class) = gen_matrix(r, 24);
+        let xc = 1 + r.below(6);
+        let x0 = if r.chance(0.3) { F2::identity(m.rows) } else { rand_uniform(r, m.rows, xc, 0.5) };
+        check_matrix(&CaseId { family: "random", index: i, class }, &m, &x0, None, &mut st);
+        st.add(&format!("class:{class}"), 1);
+        st.add(&format!("size:rows<={:02}", ((m.rows + 5) / 6) * 6), 1);
+        st.add(&format!("size:cols<={:02}", ((m.cols + 5) / 6) * 6), 1);
+        if m.rows == 24 || m.cols == 24 {
+            st.add("size:dimension-24-reached", 1);
+        }
+        st.flush();
+        ctx().sample_n(5, || json!({"family": "random", "index": i, "class": class, "matrix": m.to_json(), "rank": m.rank(), "proxy_x": x0.to_json()}));
+    });
+
+    // ---- algebra: exhaustive small pairs ----
+    let amax = t.pick(2usize, 3usize);
+    let abits = t.pick(8usize, 16usize);
+    let mut triples = vec![];
+    for r_ in 1..=amax {
+        for k in 1..=amax {
+            for cc in 1..=amax {
+                if r_ * k + k * cc <= abits {
+                    triples.push((r_, k, cc));
+                }
+            }
+        }
+    }
+    let mut offsets = vec![0u64];
+    for &(r_, k, cc) in &triples {
+        offsets.push(offsets.last().unwrap() + (1u64 << (r_ * k + k * cc)));
+    }
+    let total_pairs = *offsets.last().unwrap();
+    let nchunks = ((total_pairs + CHUNK - 1) / CHUNK) as usize;
+    let (triples2, offsets2) = (triples.clone(), offsets.clone());
+    par_cases("algebra-exhaustive-pairs", nchunks, move |r, ci| {
+        let mut st = Stats::default();
+        let mut n = 0;
+        for g in ci * CHUNK..((ci + 1) * CHUNK).min(total_pairs) {
+            let s = offsets2.iter().rposition(|&o| o <= g).unwrap().min(triples2.len() - 1);
+            let (r_, k, cc) = triples2[s];
+            let bits = g - offsets2[s];
+            let a = F2::from_bits(r_, k, bits & ((1u64 << (r_ * k)) - 1));
+            let b = F2::from_bits(k, cc, bits >> (r_ * k));
+            // the remaining operands are derived deterministically from (a, b)
+            let b2 = F2::from_fn(k, cc, |i, j| b.get(i, j) ^ ((i + j) % 2 == 0));
+            let c3 = F2::from_fn(cc, 2, |i, j| (i + j) % 2 == 0);
+            let d = F2::from_fn(r_, k, |i, j| a.get(i, (j + 1) % k) ^ (i == j));
+            let e = F2::from_fn(r_, 2, |i, j| a.get(i, 0) ^ (j == 1));
+            let f = F2::from_fn(2, k, |i, j| a.get(0, j) ^ (i == 1 && j == 0));
+            check_algebra("algebra-exhaustive-pairs", ci, &a, &b, &b2, &c3, &d, &e, &f, &mut st);
+            n += 1;
+        }
+        let _ = r;
+        st.add("algebra:exhaustive_pairs_checked", n);
+        st.flush();
+    });
+    let seen_pairs = c.get_count("algebra:exhaustive_pairs_checked");
+    c.extra(
+        "algebra_exhaustive",
+        json!({"what": "every pair (a: r x k, b: k x c) with r,k,c <= max_dim and r*k + k*c <= max_bits", "max_dim": amax, "max_bits": abits,
+               "space": total_pairs, "pairs_checked": seen_pairs, "completed": seen_pairs == total_pairs && c.replay.is_none()}),
+    );
+
+    // ---- algebra: random tuples ----
+    let n_alg = t.pick(4_000usize, 300_000usize);
+    par_cases("algebra-random", n_alg, move |r, i| {
+        let mut st = Stats::default();
+        let small = r.chance(0.4);
+        let dim = |r: &mut Rng| 1 + r.below(if small { 5 } else { 24 });
+        let (rr, k, cc, dd, k2, r2) = (dim(r), dim(r), dim(r), dim(r), dim(r), dim(r));
+        let p = *r.pick(&[0.1, 0.5, 0.5, 0.9]);
+        let square = r.chance(0.3);
+        let k = if square { rr } else { k };
+        let a = if square && r.chance(0.7) { gen_square_invertible(r, rr) } else { rand_uniform(r, rr, k, p) };
+        let b = rand_uniform(r, k, cc, p);
+        let b2 = rand_uniform(r, k, cc, 0.5);
+        let c3 = rand_uniform(r, cc, dd, p);
+        let d = if square && r.chance(0.7) { gen_square_invertible(r, rr) } else { rand_uniform(r, rr, k, 0.5) };
+        let e = rand_uniform(r, rr, k2, 0.5);
+        let f = rand_uniform(r, r2, k, 0.5);
+        check_algebra("algebra-random", i, &a, &b, &b2, &c3, &d, &e, &f, &mut st);
+        check_primitives("algebra-random", i, r, &a, &mut st);
+        st.flush();
+    });
+}
+
+fn gen_square_invertible(r: &mut Rng, n: usize) -> F2 {
+    let mut m = F2::identity(n);
+    scramble_rows(r, &mut m, 4 * n + 1);
+    m
 }
